@@ -32,15 +32,6 @@ def case_text(host, cases):
     t.append("].\nEval vm_compute in (%s cs)." % fn)
     return "\n".join(t)
 
-def corpus_cases():
-    out = []
-    for f in sorted(glob.glob(os.path.join(C.ROOT, "corpus", "timer", "*.jsonl"))):
-        for l in open(f):
-            l = l.strip()
-            if l.startswith("{"):
-                c = json.loads(l); c["class"] = "corpus:" + os.path.basename(f); out.append(c)
-    return out
-
 def shrink_key(c):
     return (c["ins"].count(";"), len(c["ins"]))
 
@@ -53,7 +44,7 @@ def check_C18(run, replay=None):
             "timer_core": "%d 6 4 300 300" if quick else "%d 7 5 10000 10000",
             "timer_legacy": "%d 6 4 300 300" if quick else "%d 7 5 10000 10000"}
     have = [h for h in HOSTS if os.path.exists(os.path.join(C.ROOT, "harness", "src", "bin", HOSTS[h][0] + ".rs"))]
-    all_cases = [c for c in corpus_cases() if c.get("host") in have]
+    all_cases = []   # the binaries run corpus/timer/<host>.txt first (class "corpus")
     want = None
     if replay:
         # re-execute: the generators are deterministic, so the recorded input sequences are regenerated
@@ -71,7 +62,7 @@ def check_C18(run, replay=None):
                 continue
             for h in have:
                 b = HOSTS[h][0]
-                rc, out = C.sh("%s %s" % (bins[b], args[b] % run.seed), timeout=1500)
+                rc, out = C.sh("TIMER_CORPUS_DIR=%s %s %s" % (os.path.join(C.ROOT, "corpus", "timer"), bins[b], args[b] % run.seed), timeout=1500)
                 cases = [json.loads(l) for l in out.splitlines() if l.startswith("{")]
                 if rc != 0 or not cases:
                     run.oblige("harness-run %s" % b, False, out[-1500:]); continue
